@@ -39,6 +39,30 @@ func (C13) Gen(r *core.Rng, tier string, emit func(string)) {
 		as := randAdds(r, r.Intn(14), true)
 		emit(fmt.Sprintf("resolve %d 0 %s G", r.Intn(2), fmtAdds(as)))
 	}
+	// cluster writes its directories through finalize(): entry counts whose single root directory lands around
+	// the 16 KiB boundary (header + root must end within the first 16 384 bytes)
+	{
+		seed := r.U64() % 1000000
+		full := finrootEntries(seed, 9000)
+		lo, hi := 1, 9000
+		for lo < hi {
+			mid := (lo + hi) / 2
+			if len(pmtiles.SerializeEntries(full[:mid], pmtiles.Gzip)) > 16384-127 {
+				hi = mid
+			} else {
+				lo = mid + 1
+			}
+		}
+		step := 3
+		if tier == "thorough" {
+			step = 1
+		}
+		for n := lo - 4; n < lo+72; n += step {
+			if n > 0 && n <= 9000 {
+				emit(fmt.Sprintf("finroot %d %d", seed, n))
+			}
+		}
+	}
 	for i := 0; i < nCl; i++ {
 		cnt := []int{1, 2, 4, 12, 60, 300}[r.Intn(6)]
 		ts := randTileSet(r, cnt, maxTileID, false, 7)
@@ -95,6 +119,8 @@ func clusterOnce(dedup bool, ic pmtiles.Compression, tt, tc int, data []byte, di
 func (C13) RunGo(line string) string {
 	t := strings.Fields(line)
 	switch t[0] {
+	case "finroot":
+		return C05{}.RunGo(line)
 	case "resolve":
 		return C06{}.RunGo(line)
 	case "cluster":
@@ -134,10 +160,15 @@ func (C13) RunGo(line string) string {
 	return "bad-case"
 }
 
-func (C13) NonTrivial(line string) bool { return strings.Count(line, ":") >= 6 }
+func (C13) NonTrivial(line string) bool {
+	return strings.Count(line, ":") >= 6 || strings.HasPrefix(line, "finroot")
+}
 
 func (C13) Branch(line, goOut string) string {
 	t := strings.Fields(line)
+	if t[0] == "finroot" {
+		return "finroot " + strings.SplitN(goOut, " ", 2)[0]
+	}
 	if t[0] == "cluster" {
 		return "cluster " + t[2] + " dedup=" + t[1]
 	}
@@ -148,6 +179,9 @@ func (C13) Oracle(line, goOut string) string {
 	t := strings.Fields(line)
 	if strings.HasPrefix(goOut, "panic") {
 		return goOut
+	}
+	if t[0] == "finroot" {
+		return C05{}.Oracle(line, goOut)
 	}
 	switch t[0] {
 	case "resolve":
